@@ -63,8 +63,31 @@ func samePath(a, b []string) bool { return strings.Join(a, ".") == strings.Join(
 
 func extractReplyShape(fn *ssa.Function) (*replyShape, string) {
 	encs := headerEncodeCalls(fn)
+	// one Encode builds the reply; further ones are allowed only as the degenerate answer with a nil body
+	// (the "no handler" early return, the same bytes the single-call form produces with its nil body)
+	if len(encs) > 1 {
+		var main []*ssa.Call
+		for _, e := range encs {
+			if k, isK := e.Call.Args[1].(*ssa.Const); isK && k.IsNil() {
+				continue
+			}
+			main = append(main, e)
+		}
+		if len(main) == 1 {
+			h0, p0 := loadPath(main[0].Call.Args[0])
+			same := true
+			for _, e := range encs {
+				if h, p1 := loadPath(e.Call.Args[0]); e.Call.Args[0] != main[0].Call.Args[0] && !(h == h0 && samePath(p1, p0)) {
+					same = false
+				}
+			}
+			if same {
+				encs = main
+			}
+		}
+	}
 	if len(encs) != 1 {
-		return nil, fmt.Sprintf("%d Header.Encode calls (expected one)", len(encs))
+		return nil, fmt.Sprintf("%d Header.Encode calls with a body (expected one)", len(encs))
 	}
 	rs := &replyShape{enc: encs[0], header: encs[0].Call.Args[0]}
 	root, path := loadPath(rs.header)
@@ -423,9 +446,34 @@ func runC20(c *Ctx) {
 	}
 	cl := wh.AnonFuncs[0]
 	{
+		// the function that frames the template: the closure itself, or a helper of the package it calls (one level)
+		tf := cl
+		hasCode := func(f *ssa.Function) bool {
+			for _, b := range f.Blocks {
+				for _, ins := range b.Instrs {
+					if call, ok := ins.(*ssa.Call); ok {
+						if sc := call.Call.StaticCallee(); sc != nil && sc.Name() == "CreateVerifyCode" {
+							return true
+						}
+					}
+				}
+			}
+			return false
+		}
+		if !hasCode(cl) {
+			for _, b := range cl.Blocks {
+				for _, ins := range b.Instrs {
+					if call, ok := ins.(*ssa.Call); ok {
+						if sc := call.Call.StaticCallee(); sc != nil && c.P.IsRepoFunc(sc) && pkgOf(sc) == pkgOf(cl) && hasCode(sc) {
+							tf = sc
+						}
+					}
+				}
+			}
+		}
 		// checksum over exactly the framed bytes
 		var codeCall *ssa.Call
-		for _, b := range cl.Blocks {
+		for _, b := range tf.Blocks {
 			for _, ins := range b.Instrs {
 				if call, ok := ins.(*ssa.Call); ok {
 					if sc := call.Call.StaticCallee(); sc != nil && sc.Name() == "CreateVerifyCode" {
@@ -503,7 +551,7 @@ func runC20(c *Ctx) {
 				}
 				return 0, false
 			}
-			for _, b := range cl.Blocks {
+			for _, b := range tf.Blocks {
 				for _, ins := range b.Instrs {
 					app, isApp := isBuiltinCall(ins, "append")
 					if !isApp || !(codeCall.Block().Dominates(b)) || len(app.Call.Args) != 2 {
@@ -598,7 +646,7 @@ func runC20(c *Ctx) {
 					}
 					nPlain++
 					excluded := map[int64]bool{}
-					for _, b2 := range cl.Blocks {
+					for _, b2 := range tf.Blocks {
 						if k, isEq := eqTest(b2); isEq && b2.Succs[1].Dominates(b) && len(b2.Succs[1].Preds) == 1 {
 							excluded[k] = true
 						}
